@@ -19,121 +19,136 @@ const (
 	rhBinOpSide binOpSide = "right"
 )
 
+type matchErrorKind int
+
+const (
+	errDuplicateOnOneSide matchErrorKind = iota
+	errMultipleMatchesOneToOne
+	errMultipleMatchesGrouping
+)
+
 type errManyToManyMatch struct {
+	kind              matchErrorKind
 	sampleID          uint64
 	duplicateSampleID uint64
-	side              binOpSide
 }
 
-func newManyToManyMatchError(sampleID, duplicateSampleID uint64, side binOpSide) *errManyToManyMatch {
-	return &errManyToManyMatch{
-		sampleID:          sampleID,
-		duplicateSampleID: duplicateSampleID,
-		side:              side,
-	}
-}
-
-type outputSample struct {
-	lhT        int64
-	rhT        int64
-	lhSampleID uint64
-	rhSampleID uint64
-	v          float64
-}
-
+// table evaluates the match between two step vectors. The match group of each
+// series and the output series are computed once (see vectorOperator.join),
+// which samples meet is tracked per step.
 type table struct {
 	pool *model.VectorPool
 
 	operation operation
 	card      parser.VectorMatchCardinality
 
-	outputValues []outputSample
-	// highCardOutputIndex is a mapping from series ID of the high cardinality
-	// operator to an output series ID.
-	// During joins, each high cardinality series that has a matching
-	// low cardinality series will map to exactly one output series.
-	highCardOutputIndex outputIndex
-	// lowCardOutputIndex is a mapping from series ID of the low cardinality
-	// operator to an output series ID.
-	// Each series from the low cardinality operator can join with many
-	// series of the high cardinality operator.
-	lowCardOutputIndex outputIndex
+	// step counts the evaluated steps. It is used instead of the vector
+	// timestamps to tell whether a slot was written in the current step.
+	step int64
+
+	// oneGroup is the match group of each series of the "one" side and
+	// oneLocal its position among the series of that group.
+	oneGroup []int
+	oneLocal []int
+	// manyGroup is the match group of each series of the "many" side, or -1.
+	manyGroup []int
+	// manyOutput holds the output series ID of each series of the "many" side,
+	// either a single one or one for every series of the "one" side in the group.
+	manyOutput [][]uint64
+
+	// State of the match groups and outputs in the current step.
+	groupStep   []int64
+	groupSample []uint64
+	groupValue  []float64
+	outputStep  []int64
 }
 
 func newTable(
 	pool *model.VectorPool,
 	card parser.VectorMatchCardinality,
 	operation operation,
-	outputValues []outputSample,
-	highCardOutputCache outputIndex,
-	lowCardOutputCache outputIndex,
+	numGroups, numOutputs int,
+	oneGroup, oneLocal, manyGroup []int,
+	manyOutput [][]uint64,
 ) *table {
-	for i := range outputValues {
-		outputValues[i].lhT = -1
-		outputValues[i].rhT = -1
-	}
 	return &table{
-		pool: pool,
-		card: card,
-
-		operation:           operation,
-		outputValues:        outputValues,
-		highCardOutputIndex: highCardOutputCache,
-		lowCardOutputIndex:  lowCardOutputCache,
+		pool:        pool,
+		card:        card,
+		operation:   operation,
+		oneGroup:    oneGroup,
+		oneLocal:    oneLocal,
+		manyGroup:   manyGroup,
+		manyOutput:  manyOutput,
+		groupStep:   make([]int64, numGroups),
+		groupSample: make([]uint64, numGroups),
+		groupValue:  make([]float64, numGroups),
+		outputStep:  make([]int64, numOutputs),
 	}
 }
 
 func (t *table) execBinaryOperation(lhs model.StepVector, rhs model.StepVector, returnBool bool) (model.StepVector, *errManyToManyMatch) {
-	ts := lhs.T
-	step := t.pool.GetStepVector(ts)
+	t.step++
+	step := t.pool.GetStepVector(lhs.T)
 
-	lhsIndex, rhsIndex := t.highCardOutputIndex, t.lowCardOutputIndex
+	// Same short-circuit as in Prometheus: nothing is going to match.
+	if len(lhs.SampleIDs) == 0 || len(rhs.SampleIDs) == 0 {
+		return step, nil
+	}
+
+	many, one := lhs, rhs
 	if t.card == parser.CardOneToMany {
-		lhsIndex, rhsIndex = rhsIndex, lhsIndex
+		many, one = rhs, lhs
 	}
 
-	for i, sampleID := range lhs.SampleIDs {
-		lhsVal := lhs.Samples[i]
-		outputSampleIDs := lhsIndex.outputSamples(sampleID)
-		for _, outputSampleID := range outputSampleIDs {
-			if t.card != parser.CardManyToOne && t.outputValues[outputSampleID].lhT == ts {
-				prevSampleID := t.outputValues[outputSampleID].lhSampleID
-				return model.StepVector{}, newManyToManyMatchError(prevSampleID, sampleID, lhBinOpSide)
-			}
-
-			t.outputValues[outputSampleID].lhSampleID = sampleID
-			t.outputValues[outputSampleID].lhT = lhs.T
-			t.outputValues[outputSampleID].v = lhsVal
+	// The "one" side must not have two samples in a match group, whether or
+	// not there is anything to match them with.
+	for i, sampleID := range one.SampleIDs {
+		group := t.oneGroup[sampleID]
+		if t.groupStep[group] == t.step {
+			return model.StepVector{}, &errManyToManyMatch{kind: errDuplicateOnOneSide, sampleID: t.groupSample[group], duplicateSampleID: sampleID}
 		}
+		t.groupStep[group] = t.step
+		t.groupSample[group] = sampleID
+		t.groupValue[group] = one.Samples[i]
 	}
 
-	for i, sampleID := range rhs.SampleIDs {
-		rhVal := rhs.Samples[i]
-		outputSampleIDs := rhsIndex.outputSamples(sampleID)
-		for _, outputSampleID := range outputSampleIDs {
-			outputSample := t.outputValues[outputSampleID]
-			if rhs.T != outputSample.lhT {
-				continue
-			}
-			if t.card != parser.CardOneToMany && outputSample.rhT == rhs.T {
-				prevSampleID := t.outputValues[outputSampleID].rhSampleID
-				return model.StepVector{}, newManyToManyMatchError(prevSampleID, sampleID, rhBinOpSide)
-			}
-			t.outputValues[outputSampleID].rhSampleID = sampleID
-			t.outputValues[outputSampleID].rhT = rhs.T
-
-			outputVal, keep := t.operation([2]float64{outputSample.v, rhVal}, 0)
-			if returnBool {
-				outputVal = 0
-				if keep {
-					outputVal = 1
-				}
-			} else if !keep {
-				continue
-			}
-			step.SampleIDs = append(step.SampleIDs, outputSampleID)
-			step.Samples = append(step.Samples, outputVal)
+	for i, sampleID := range many.SampleIDs {
+		group := t.manyGroup[sampleID]
+		if group < 0 || t.groupStep[group] != t.step {
+			continue
 		}
+
+		lhsVal, rhsVal := many.Samples[i], t.groupValue[group]
+		if t.card == parser.CardOneToMany {
+			lhsVal, rhsVal = rhsVal, lhsVal
+		}
+		outputVal, keep := t.operation([2]float64{lhsVal, rhsVal}, 0)
+		if returnBool {
+			outputVal = 0
+			if keep {
+				outputVal = 1
+			}
+		} else if !keep {
+			continue
+		}
+
+		outputs := t.manyOutput[sampleID]
+		outputSampleID := outputs[0]
+		if len(outputs) > 1 {
+			outputSampleID = outputs[t.oneLocal[t.groupSample[group]]]
+		}
+		// Two results with the same labels are an ambiguous match.
+		if t.outputStep[outputSampleID] == t.step {
+			kind := errMultipleMatchesGrouping
+			if t.card == parser.CardOneToOne {
+				kind = errMultipleMatchesOneToOne
+			}
+			return model.StepVector{}, &errManyToManyMatch{kind: kind}
+		}
+		t.outputStep[outputSampleID] = t.step
+
+		step.SampleIDs = append(step.SampleIDs, outputSampleID)
+		step.Samples = append(step.Samples, outputVal)
 	}
 
 	return step, nil
